@@ -1,6 +1,6 @@
-(* Proofs about Model/Slice.v (property C14): the workbook slicer returns the
-   member as written when no earlier line reads `name:`; and a counterexample
-   without that hypothesis (a task named like a later workflow). *)
+(* Proofs about Model/Slice.v (property C14): the workbook slicer (as repaired by
+   fix 1e28c643) returns the member as written, whatever deeper lines (tasks, inputs,
+   texts) the earlier members contain; the witnesses of the old defect as regression facts. *)
 From Coq Require Import List String Ascii Bool Arith Lia.
 Require Import Mistral.Model.Slice.
 Import ListNotations.
@@ -43,26 +43,6 @@ Proof.
   apply rstrip_colon.
 Qed.
 
-Lemma after_section_app sec header secline rest :
-  no_line_contains sec header = true -> contains sec secline = true ->
-  after_section sec (header ++ secline :: rest) = Some rest.
-Proof.
-  intros Hh Hs. induction header as [|l header IH]; cbn [app after_section].
-  - rewrite Hs. reflexivity.
-  - unfold no_line_contains in Hh. cbn [forallb] in Hh. apply andb_true_iff in Hh.
-    destruct Hh as [Hl Hr]. apply negb_true_iff in Hl. rewrite Hl. apply IH. exact Hr.
-Qed.
-
-Lemma find_item_app item before l rest :
-  no_line_is item before = true -> String.eqb item (strip l) = true ->
-  find_item item (before ++ l :: rest) = Some (lead_ws l, lstrip l, rest).
-Proof.
-  intros Hb Hl. induction before as [|b before IH]; cbn [app find_item].
-  - rewrite Hl. reflexivity.
-  - unfold no_line_is in Hb. cbn [forallb] in Hb. apply andb_true_iff in Hb.
-    destruct Hb as [H1 H2]. apply negb_true_iff in H1. rewrite H1. apply IH. exact H2.
-Qed.
-
 (* what ends the member: nothing, or a line that is not deeper than the member name *)
 Definition tail_ok (k : nat) (after : list string) : Prop :=
   match after with [] => True | a :: _ => ends_member k a = true end.
@@ -100,63 +80,140 @@ Proof.
         rewrite Hlt, drop_pad, IH. reflexivity.
 Qed.
 
-(* Faithful slicing: in a text  header / section line / earlier lines / member at
-   indentation k / rest, the slicer returns exactly the member (name line and body,
-   de-indented by k) PROVIDED no earlier line of the section reads `name:` and the
-   section name does not occur in the header. *)
+
+Lemma is_content_pad k s : is_content (pad k ++ s) = is_content s.
+Proof. unfold is_content. rewrite strip_pad. reflexivity. Qed.
+
+Lemma key_of_pad k s x : lead_ws s = 0 -> key_of s = Some x -> key_of (pad k ++ s) = Some x.
+Proof.
+  intros H0 Hk. unfold key_of in *. rewrite lstrip_pad.
+  destruct (key_main (lstrip s)) as [y|] eqn:E; [exact Hk|].
+  unfold key_blank in Hk. rewrite H0 in Hk. discriminate.
+Qed.
+
+Lemma key_is_pad k s : lead_ws s = 0 -> key_of s = Some s -> key_is (pad k ++ s) s = true.
+Proof.
+  intros H0 Hk. unfold key_is. rewrite (key_of_pad k s s H0 Hk). apply String.eqb_refl.
+Qed.
+
+Lemma indent_is_eq o k t : indent_is o k = true -> o = Some t -> t = k.
+Proof. intros H ->. simpl in H. apply Nat.eqb_eq in H. exact H. Qed.
+
+(* first loop *)
+Lemma find_section_app sec top header secline rest acc :
+  (acc = Some top \/ (acc = None /\ indent_is (first_indent header) top = true)) ->
+  forallb (fun l => negb (is_content l) || negb (key_is l sec && Nat.eqb (lead_ws l) top)) header = true ->
+  is_content secline = true -> key_is secline sec = true -> lead_ws secline = top ->
+  find_section sec acc (header ++ secline :: rest) = Some (top, rest).
+Proof.
+  intros Hacc Hh Hc Hk Hl. revert acc Hacc.
+  induction header as [|l header IH]; intros acc Hacc; cbn [app find_section].
+  - rewrite Hc. cbn [negb]. rewrite Hk.
+    assert (Ht : match acc with Some t => t | None => lead_ws secline end = top)
+      by (destruct Hacc as [->|[-> _]]; [reflexivity|exact Hl]).
+    rewrite Ht, Hl, Nat.eqb_refl. reflexivity.
+  - cbn [forallb] in Hh. apply andb_true_iff in Hh. destruct Hh as [Hl1 Hh].
+    destruct (is_content l) eqn:Ec; cbn [negb].
+    + cbn [negb orb] in Hl1.
+      assert (Ht : match acc with Some t => t | None => lead_ws l end = top).
+      { destruct Hacc as [->|[-> Hi]]; [reflexivity|].
+        cbn [first_indent] in Hi. rewrite Ec in Hi. simpl in Hi. apply Nat.eqb_eq in Hi. exact Hi. }
+      rewrite Ht. apply negb_true_iff in Hl1. rewrite Hl1.
+      apply (IH Hh). left. reflexivity.
+    + apply (IH Hh). destruct Hacc as [->|[-> Hi]]; [left; reflexivity|right; split; [reflexivity|]].
+      cbn [first_indent] in Hi. rewrite Ec in Hi. exact Hi.
+Qed.
+
+(* second loop *)
+Lemma find_member_app item top k before mline rest acc :
+  (acc = Some k \/ (acc = None /\ indent_is (first_indent before) k = true)) ->
+  forallb (fun l => negb (is_content l) ||
+                    (Nat.ltb top (lead_ws l) && negb (key_is l item && Nat.eqb (lead_ws l) k))) before = true ->
+  is_content mline = true -> key_is mline item = true -> lead_ws mline = k -> top < k ->
+  find_member item top acc (before ++ mline :: rest) = Found k (lstrip mline) rest.
+Proof.
+  intros Hacc Hb Hc Hk Hl Hlt. revert acc Hacc.
+  induction before as [|l before IH]; intros acc Hacc; cbn [app find_member].
+  - rewrite Hc. cbn [negb]. rewrite Hl.
+    assert (Hle : Nat.leb k top = false) by (apply Nat.leb_gt; exact Hlt). rewrite Hle, Hk.
+    assert (Ht : match acc with Some m => m | None => k end = k) by (destruct Hacc as [->|[-> _]]; reflexivity).
+    rewrite Ht, Nat.eqb_refl. reflexivity.
+  - cbn [forallb] in Hb. apply andb_true_iff in Hb. destruct Hb as [Hl1 Hb].
+    destruct (is_content l) eqn:Ec; cbn [negb].
+    + cbn [negb orb] in Hl1. apply andb_true_iff in Hl1. destruct Hl1 as [Hdeep Hnot].
+      apply Nat.ltb_lt in Hdeep.
+      assert (Hle : Nat.leb (lead_ws l) top = false) by (apply Nat.leb_gt; exact Hdeep). rewrite Hle.
+      assert (Ht : match acc with Some m => m | None => lead_ws l end = k).
+      { destruct Hacc as [->|[-> Hi]]; [reflexivity|].
+        cbn [first_indent] in Hi. rewrite Ec in Hi. simpl in Hi. apply Nat.eqb_eq in Hi. exact Hi. }
+      rewrite Ht. apply negb_true_iff in Hnot. rewrite Hnot.
+      apply (IH Hb). left. reflexivity.
+    + apply (IH Hb). destruct Hacc as [->|[-> Hi]]; [left; reflexivity|right; split; [reflexivity|]].
+      cbn [first_indent] in Hi. rewrite Ec in Hi. exact Hi.
+Qed.
+
+(* Faithful slicing, new algorithm: in a text  header / section line at the top indentation /
+   earlier lines of the section / member at indentation k / rest, the slicer returns exactly
+   the member (name line and body, de-indented by k).  The earlier lines may contain ANY deeper
+   lines - a task named like the member, texts mentioning the section name - the only
+   requirements are the shape of a YAML mapping: they are inside the section (deeper than the
+   section key), the members among them are at indentation k, and none of these is the key
+   `name:` itself (duplicate keys). *)
 Theorem slice_faithful :
-  forall sec header secline before k m after,
-    no_line_contains sec header = true ->
-    contains sec secline = true ->
-    no_line_is (m_name m ++ ":") before = true ->
+  forall sec header secline before top k m after,
+    header_ok sec top header = true ->
+    is_content secline = true -> key_is secline sec = true -> lead_ws secline = top ->
+    before_ok (m_name m ++ ":") top k before = true ->
+    top < k ->
+    is_content (m_name m ++ ":") = true ->
     lead_ws (m_name m ++ ":") = 0 ->
+    key_of (m_name m ++ ":") = Some (m_name m ++ ":") ->
     forallb body_line_ok (m_body m) = true ->
     tail_ok k after ->
     slice sec (m_name m ++ ":")
           (header ++ secline :: before ++ render_member k m ++ after)
     = Some (finish ((m_name m ++ ":") :: m_body m)).
 Proof.
-  intros sec header secline before k m after Hh Hs Hb Hn Hbody Ht.
-  unfold slice, slice_lines. rewrite (after_section_app _ _ _ _ Hh Hs).
+  intros sec header secline before top k m after Hh Hsc Hsk Hsl Hb Hlt Hmc Hm0 Hmk Hbody Ht.
+  unfold header_ok in Hh. apply andb_true_iff in Hh. destruct Hh as [Hh1 Hh2].
+  unfold before_ok in Hb. apply andb_true_iff in Hb. destruct Hb as [Hb1 Hb2].
+  unfold slice, slice_lines.
+  rewrite (find_section_app sec top header secline _ None (or_intror (conj eq_refl Hh1)) Hh2 Hsc Hsk Hsl).
   unfold render_member. rewrite <- app_comm_cons.
-  rewrite (find_item_app (m_name m ++ ":") before (pad k ++ m_name m ++ ":")).
-  - cbn [option_map]. rewrite lead_ws_pad, Hn, Nat.add_0_r.
-    rewrite lstrip_pad, (lstrip_lead0 _ Hn).
+  rewrite (find_member_app (m_name m ++ ":") top k before (pad k ++ m_name m ++ ":") _ None
+             (or_intror (conj eq_refl Hb1)) Hb2).
+  - cbn [option_map]. rewrite lstrip_pad, (lstrip_lead0 _ Hm0).
     rewrite (body_member k (m_body m) after Hbody Ht). reflexivity.
-  - exact Hb.
-  - rewrite (strip_item k _ Hn). apply String.eqb_refl.
+  - rewrite is_content_pad. exact Hmc.
+  - apply key_is_pad; assumption.
+  - rewrite lead_ws_pad, Hm0. apply Nat.add_0_r.
+  - exact Hlt.
 Qed.
 
-(* The same statement without the hypothesis on earlier lines is false: a task
-   of an earlier workflow that is named like a later workflow is returned instead. *)
-Definition f3_header := ["version: '2.0'"; "name: wb"].
-Definition f3_before := ["  wf1:"; "    tasks:"; "      wf2:"; "        action: std.noop"].
-Definition f3_member := mkMember "wf2" ["  tasks:"; "    t:"; "      action: std.echo output=1"].
+(* The documents on which the slicer of the unrepaired code returned a wrong text
+   (a task named like a later workflow; a quoted member name; `workflows :`; the section
+   name inside a description) are now cut correctly. *)
+Definition f3_lines := ["version: '2.0'"; "name: wb"; "workflows:"; "  wf1:"; "    tasks:"; "      wf2:";
+                        "        action: std.noop"; "  wf2:"; "    tasks:"; "      t:"; "        action: std.echo output=1"].
+Definition quoted_lines := ["version: '2.0'"; "name: wb"; "description: 'my workflows: are here'"; "workflows :";
+                            "  'wf1' : # c"; "    tasks:"; "      t:"; "        action: std.noop"; "actions:"; "  wf1: {base: std.noop}"].
 
-Theorem slice_refuted :
-  exists sec header secline before k m after,
-    no_line_contains sec header = true /\
-    contains sec secline = true /\
-    lead_ws (m_name m ++ ":") = 0 /\
-    forallb body_line_ok (m_body m) = true /\
-    tail_ok k after /\
-    slice sec (m_name m ++ ":")
-          (header ++ secline :: before ++ render_member k m ++ after)
-    = Some (finish ["wf2:"; "  action: std.noop"]) /\
-    finish ["wf2:"; "  action: std.noop"] <> finish ((m_name m ++ ":") :: m_body m).
-Proof.
-  exists "workflows:", f3_header, "workflows:", f3_before, 2, f3_member, [].
-  repeat split; try reflexivity. vm_compute. discriminate.
-Qed.
+Theorem slice_regression :
+  slice "workflows:" "wf2:" f3_lines = Some (finish ["wf2:"; "  tasks:"; "    t:"; "      action: std.echo output=1"]) /\
+  slice "workflows:" "wf1:" quoted_lines = Some (finish ["'wf1' : # c"; "  tasks:"; "    t:"; "      action: std.noop"]) /\
+  slice "actions:" "wf1:" quoted_lines = Some (finish ["wf1: {base: std.noop}"]).
+Proof. vm_compute. auto. Qed.
 
-(* The slicer raises (ValueError in the code) exactly when no line contains the section name. *)
-Theorem slice_defined_iff : forall sec item lines,
-  slice sec item lines <> None <-> existsb (contains sec) lines = true.
+(* The slicer raises (ValueError in the code) exactly when no content line is the section key at
+   the top indentation; in particular never when such a line exists. *)
+Theorem slice_defined : forall sec item header secline rest top,
+  header_ok sec top header = true ->
+  is_content secline = true -> key_is secline sec = true -> lead_ws secline = top ->
+  slice sec item (header ++ secline :: rest) <> None.
 Proof.
-  intros sec item lines. unfold slice, slice_lines.
-  induction lines as [|l r IH]; cbn [after_section existsb].
-  - split; [intros H; exfalso; apply H; reflexivity|discriminate].
-  - destruct (contains sec l); cbn [orb].
-    + split; [reflexivity|discriminate].
-    + exact IH.
+  intros sec item header secline rest top Hh Hc Hk Hl.
+  unfold header_ok in Hh. apply andb_true_iff in Hh. destruct Hh as [Hh1 Hh2].
+  unfold slice, slice_lines.
+  rewrite (find_section_app sec top header secline rest None (or_intror (conj eq_refl Hh1)) Hh2 Hc Hk Hl).
+  discriminate.
 Qed.
